@@ -1,6 +1,6 @@
 """Per-property claim metadata (level, technique, notes) shared by the manifest generator and the checks."""
 CORR = ('Tie to the code, both ways, on every run: (1) differential correspondence (extracted model vs. crate, debug+release) over boundary-directed '
-        'generators, with a sample re-evaluated inside the kernel; (2) regeneration from the source text: tables/constants (py/srcfacts.py) and the '
+        'generators (incl. four implementations of the Reader trait -- slice, contract-checking, limit, seam -- three of the Writer trait, 16-thread passes, refused calls interleaved), with a sample re-evaluated inside the kernel; (2) regeneration from the source text: tables/constants (py/srcfacts.py) and the '
         'control flow of 161 functions (py/rs2v translator: decoders, encoders, bitmask constructors/accessors, SliceReader, VecWriter, AVP::hide, AVP::reveal) are re-derived from '
         '/repo and kernel-checked against the Model; the linked regenerated decoder / encoder / reader / hide / reveal are proved equal to the Model on '
         'every input and the property theorems are re-proved of them (G_C01..G_C15, G_C17, G_C18). ')
